@@ -323,7 +323,9 @@ def canonical_dump(record: Any, strandless_as_forward: bool = False, bio_record:
     for proto in protos:
         t2pks = None
         if proto.t2pks:
-            t2pks = _qualifier_items(proto.t2pks.to_biopython_qualifiers())
+            t2pks = {"starters": list(proto.t2pks.starter_units), "elongations": list(proto.t2pks.malonyl_elongations),
+                     "classes": list(proto.t2pks.product_classes),
+                     "weights": sorted(proto.t2pks.molecular_weights.items())}
         structure["protoclusters"].append({
             "number": proto.get_protocluster_number(), "loc": loc(proto.location), "core": loc(proto.core_location),
             "product": proto.product, "category": proto.product_category, "tool": proto.tool,
@@ -1101,7 +1103,7 @@ def _protoclusters(draw, genes: list, length: int, circular: bool, count: int, a
             # a core across the origin needs surroundings across the origin (Protocluster refuses otherwise)
             loc_arc = (core_arc[0], core_arc[1])
         loc = arc_to_area(loc_arc[0], loc_arc[1], length, strand if len(core["parts"]) == 1 else 1)
-        product = draw(st.sampled_from(PRODUCTS))
+        product = draw(st.sampled_from(PRODUCTS + ["T2PKS"]))
         proto = {"core": core, "loc": loc, "product": product, "sideloaded": sideloaded,
                  "nrange": max(left, right) if sideloaded else nrange,
                  "_core_arc": list(core_arc), "_anchors": anchors}
@@ -1116,8 +1118,8 @@ def _protoclusters(draw, genes: list, length: int, circular: bool, count: int, a
             proto.update({"tool": "rule-based-clusters", "category": draw(st.sampled_from(CATEGORIES)),
                           "cutoff": draw(st.sampled_from([0, typical, 20000])), "rule": draw(st.sampled_from(RULES)),
                           "t2pks": None})
-            if product == "T2PKS" and draw(st.booleans()):
-                elong = draw(st.booleans())
+            if product == "T2PKS" and not draw(_one_in(4)):
+                elong = not draw(_one_in(4))
                 proto["t2pks"] = {"starters": ["acetyl-CoA (Score: 10.5; E-value: 1e-05)"],
                                   "elongations": ["7 (Score: 20.0; E-value: 1e-10)", "8|9 (Score: 0.0; E-value: 0.1)"] if elong else [],
                                   "classes": draw(st.sampled_from([[], ["angucycline", "tetracenomycin"]])),
